@@ -1659,6 +1659,7 @@ class Array:
 
         # labels: replace non-set labels with '?#' (*before* transpose
         labels = [(l if l is not None else '?' + str(i)) for i, l in enumerate(self._labels)]
+        place_holders = ['?' + str(i) for i, l in enumerate(self._labels) if l is None]
         # transpose if necessary
         if transp != tuple(range(self.rank)):
             res = self.copy(deep=False)
@@ -1666,7 +1667,10 @@ class Array:
             res = res.itranspose(transp)
             inv_transp = inverse_permutation(transp)
             tr_combine_legs = [[inv_transp[a] for a in cl] for cl in combine_legs]
-            return res.combine_legs(tr_combine_legs, new_axes=new_axes, pipes=pipes)
+            res = res.combine_legs(tr_combine_legs, new_axes=new_axes, pipes=pipes)
+            # the place holders '?#' are only meant for the labels of the new pipes
+            res._labels = [(None if l in place_holders else l) for l in res._labels]
+            return res
         # if we come here, combine_legs has the form of `tr_combine_legs`.
         # HERE we have the standard form of arguments
 
@@ -1683,6 +1687,8 @@ class Array:
         pipe_labels = [self._combine_leg_labels([labels[c] for c in cl]) for cl in combine_legs]
         for na, p, plab in zip(new_axes, pipes, pipe_labels):
             labels[na : na + p.nlegs] = [plab]
+        # the place holders '?#' are only meant for the labels of the new pipes
+        labels = [(None if l in place_holders else l) for l in labels]
 
         res = Array(legs, self.dtype, self.qtotal, labels)
 
